@@ -584,3 +584,90 @@ def assoc_function(ctx):
     else:
         ctx.inconclusive.append("vacuity: correlate never completed")
     ctx.sample({"paths": E.paths})
+
+
+# ---------------------------------------------------------------------------------------
+# O9: inside a FUNCTION: a recursive reference to the function is a call, a parenthesised reference to its result variable is not
+# ---------------------------------------------------------------------------------------
+FN_HEADS = [("recursive integer function fact(n) result(r)", "fact", "r", ["integer :: n"]),
+            ("integer recursive function fact(n) result(r)", "fact", "r", ["integer :: n"]),
+            ("recursive function fact(n) result(r)", "fact", "r", ["integer :: n, r"]),
+            ("character(len=4) function fact(n) result(r)", "fact", "r", ["integer :: n"]),
+            ("RECURSIVE INTEGER FUNCTION FACT(N) RESULT(R)", "fact", "r", ["integer :: n"]),
+            ("integer function fact(n)", "fact", "fact", ["integer :: n"])]
+FN_BODY = [("{r} = n * fact(n - 1)", True, True), ("{r}(1:1) = 'x'", False, False), ("if (n > 1) {r} = max(fact(n - 1), bar(n))", True, True),
+           ("{r} = bar(n)", False, True), ("{r} = n", False, False)]
+
+
+def _fn_program(head, body):
+    h_, fname, rname, decls = head
+    return ["module fm", "contains", "function bar(a)", "integer :: a, bar", "end function bar", h_] + list(decls) + [body.replace("{r}", rname), "end function", "end module fm"]
+
+
+def _fn_expected(head, body):
+    text, selfref, _ = body
+    rname = head[2]
+    out = set()
+    # a function without RESULT clause cannot reference itself recursively: `fact(...)` there denotes the result variable
+    if selfref and rname != head[1]:
+        out.add("fact")
+    if "bar(" in text:
+        out.add("bar")
+    return sorted(out)
+
+
+def _fn_observe(p):
+    f = [x for x in p.procedures if str(x.name).lower() == "fact"][0]
+    return sorted(str(getattr(c, "name", c)).lower() for c in f.calls)
+
+
+def replay_fn_calls(w):
+    head, body = FN_HEADS[w["head"]], FN_BODY[w["body"]]
+    p = parserh.project_concrete({"a.f90": _fn_program(head, body[0])}, **PSET)
+    got = _fn_observe(p)
+    want = _fn_expected(head, body)
+    return got != want, {"program": _fn_program(head, body[0]), "ford_calls": got, "invoked": want}
+
+
+@obligation("C08", "O9.calls-inside-functions", engine="SX(CV)", timeout=600)
+def calls_in_functions(ctx):
+    """a function whose heading is symbolic (type in the prefix or in the body, RESULT clause or not, letter case) with a symbolic body
+    statement (recursive self reference, substring of the result variable, other calls): recorded calls = procedures invoked"""
+    import ford.sourceform as sf
+
+    ctx.encode_fn(sf.FortranFunction._initialize)
+    ctx.encode_fn(sf.FortranContainer._add_procedure_calls)
+    ctx.encode_fn(sf.FortranCodeUnit._find_chain_item)
+    ctx.bounds.update({"headings": len(FN_HEADS), "body statements": len(FN_BODY)})
+
+    def h(E):
+        hi = CV.choice(E, "head", list(range(len(FN_HEADS)))).concretize()
+        bi = CV.choice(E, "body", list(range(len(FN_BODY)))).concretize()
+        # a function named like its result cannot be referenced recursively (and `fact(1:1)` needs a character result)
+        if FN_HEADS[hi][2] == FN_HEADS[hi][1] and FN_BODY[bi][1]:
+            E.assume(False)
+            return
+        if "(1:1)" in FN_BODY[bi][0] and not FN_HEADS[hi][0].lower().startswith("character"):
+            E.assume(False)
+            return
+        snap = {"head": hi, "body": bi}
+        E.e.snapshot = lambda m: dict(snap)
+        got = parserh.project({"a.f90": _fn_program(FN_HEADS[hi], FN_BODY[bi][0])}, post=_fn_observe, **PSET)
+        E.reachable("correlated")
+        E.require(list(got) == _fn_expected(FN_HEADS[hi], FN_BODY[bi]), "recorded calls of a function differ from the procedures it invokes")
+
+    E = sym.Engine(ctx, max_paths=500, incremental=True)
+    found = E.explore(h)
+    seen = set()
+    for (label, m, pc), snap in zip(found, E.snapshots):
+        if not snap or (snap["head"], snap["body"]) in seen:
+            continue
+        seen.add((snap["head"], snap["body"]))
+        ctx.report(label, snap, replay_fn_calls)
+        if len(seen) >= 4:
+            break
+    if E.reached.get("correlated"):
+        ctx.twins += 1
+    else:
+        ctx.inconclusive.append("vacuity: correlate never completed")
+    ctx.sample({"paths": E.paths})
